@@ -66,6 +66,14 @@ Theorem C18_roundtrip_refuted_password_without_user :
                  /\ ~ roundtrips name c.
 Proof. exact (@refuted_password_without_user). Qed.
 
+(* outside in_domain (valid_host has no ':'): an IPv6 address as host is written
+   without brackets and the reported URI does not parse *)
+Theorem C18_roundtrip_refuted_ipv6_host :
+  exists name c u, c_host c = lit "::1" /\ c_port c = Some 3306%Z
+                   /\ build_comps name c = ROk u /\ u = lit "mysql://u:p@::1:3306/db"
+                   /\ parse_uri false u = RErr X_Value.
+Proof. exact (@refuted_ipv6_host). Qed.
+
 (* ---- bad ports -------------------------------------------------------------- *)
 
 (* builder side: a connection whose port is an integer outside 1..65535 reports
@@ -182,6 +190,7 @@ Print Assumptions C18_roundtrip_refuted.
 Print Assumptions C18_roundtrip_refuted_port_without_host.
 Print Assumptions C18_roundtrip_refuted_params.
 Print Assumptions C18_roundtrip_refuted_password_without_user.
+Print Assumptions C18_roundtrip_refuted_ipv6_host.
 Print Assumptions C18_bad_port_build_partial.
 Print Assumptions C18_bad_port_build_refuted.
 Print Assumptions C18_bad_port_build_refuted_zero.
